@@ -67,6 +67,25 @@ def check(run, tier, seed):
                 viol += 1
                 run.violation(dict(n=n, mixed_edges=mg, unshielded_only=u, got=got, expected=exp,
                                    why='identify_colliders differs from "at least two arrowheads pointing in"'), note='colliders')
+    # for a Skeleton the Markov boundary is exactly the neighbours, whatever the edge types of the graph behind it
+    from cai_causal_graph.identify_utils import identify_markov_boundary
+    for n, mg in cases[:600]:
+        g = D.build_mixed(n, mg)
+        sk = g.skeleton
+        adj = {v: set() for v in range(n)}
+        for s_, d_, _t in mg:
+            adj[s_].add(d_)
+            adj[d_].add(s_)
+        for v in range(n):
+            try:
+                got = sorted(identify_markov_boundary(sk, D.NAMES[v]))
+            except Exception as e:  # noqa: BLE001
+                got = f'raised {type(e).__name__}'
+            exp = sorted(D.NAMES[u] for u in adj[v])
+            if got != exp and viol < 2:
+                viol += 1
+                run.violation(dict(n=n, mixed_edges=mg, node=D.NAMES[v], got=got, expected=exp,
+                                   why='identify_markov_boundary on the Skeleton differs from the neighbours'), note='skeleton markov boundary')
     for c in cases[:2000]:
         run.count(('mixed', c[0], tuple(c[1])), nontrivial=len(c[1]) >= 2)
 
